@@ -1,5 +1,5 @@
 (* C05 - proofs about encode / recode and about queries on encoded data. *)
-From HV Require Import Prelude Tracts BpText C05_Model C05_Check C05_Proofs.
+From HV Require Import Prelude Tracts BpText C05_Model C05_Check C05_Proofs C05_ProofsNp.
 
 Definition code_of (L : list (Z * Z)) (p : Z) : Z :=
   match zassoc p L with Some c => c | None => -1 end.
@@ -10,9 +10,6 @@ Definition map_strands (f : Z -> Z) (sb : strands) : strands := (map_pop f (fst 
 
 Definition map_table (f : Z -> Z) (d : table) : table :=
   map (fun nsb : Z * strands => (fst nsb, map_strands f (snd nsb))) d.
-
-Definition pops_of (d : table) : list Z :=
-  flat_map (fun nsb : Z * strands => map pop (fst (snd nsb)) ++ map pop (snd (snd nsb))) d.
 
 Definition rmap {A B} (g : A -> B) (x : res A) : res B :=
   match x with Ok a => Ok (g a) | Err k => Err k end.
@@ -195,20 +192,103 @@ Qed.
 Definition seen_filter (Sf : list Z) (Lf : list (Z * Z)) : list (Z * Z) :=
   filter (fun kv => existsb (Z.eqb (fst kv)) Sf) Lf.
 
+(* keys of the labels dictionary: only given labels and labels of the data *)
+Lemma dict_set_keys k x v (d : list (Z * Z)) :
+  In k (map fst (dict_set Z.eqb x v d)) -> k = x \/ In k (map fst d).
+Proof.
+  induction d as [|[k' v'] r IH]; cbn [dict_set map fst In].
+  - intros [H|[]]. left. symmetry. exact H.
+  - destruct (x =? k') eqn:E; cbn [map fst In]; [tauto|]. intros [H|H]; [tauto|]. destruct (IH H); tauto.
+Qed.
+
+Lemma enum_dict_keys g : forall i d k, In k (map fst (enum_dict i g d)) -> In k (map fst d) \/ In k g.
+Proof.
+  induction g as [|x g IH]; intros i d k; cbn [enum_dict]; [tauto|].
+  intros H. apply IH in H. destruct H as [H|H]; [|right; right; exact H].
+  apply dict_set_keys in H. destruct H as [->|H]; [right; left; reflexivity|left; exact H].
+Qed.
+
+Lemma enc_block_keys L S s s' L' S' k :
+  enc_block (L, S) s = (s', (L', S')) -> In k (map fst L') -> In k (map fst L) \/ k = pop s.
+Proof.
+  unfold enc_block. destruct (zassoc (pop s) L); intros H; inversion H; subst; [tauto|].
+  rewrite map_app. cbn [map fst]. intros Hin. apply in_app_or in Hin. destruct Hin as [Hin|[<-|[]]]; tauto.
+Qed.
+
+Lemma enc_blocks_keys l : forall L S l' L' S' k,
+  enc_blocks (L, S) l = (l', (L', S')) -> In k (map fst L') -> In k (map fst L) \/ In k (map pop l).
+Proof.
+  induction l as [|s r IH]; intros L S l' L' S' k; cbn [enc_blocks].
+  - intros H; inversion H; subst. tauto.
+  - destruct (enc_block (L, S) s) as [s1 [L1 S1]] eqn:E1.
+    destruct (enc_blocks (L1, S1) r) as [r1 [L2 S2]] eqn:E2.
+    intros H; inversion H; subst. clear H. intros Hin.
+    destruct (IH _ _ _ _ _ k E2 Hin) as [H1|H1]; [|right; right; exact H1].
+    destruct (enc_block_keys _ _ _ _ _ _ k E1 H1) as [H2|H2]; [left; exact H2|right; left; symmetry; exact H2].
+Qed.
+
+Lemma enc_table_keys d : forall L S d' L' S' k,
+  enc_table (L, S) d = (d', (L', S')) -> In k (map fst L') -> In k (map fst L) \/ In k (pops_of d).
+Proof.
+  induction d as [|[name [b1 b2]] r IH]; intros L S d' L' S' k; cbn [enc_table].
+  - intros H; inversion H; subst. tauto.
+  - destruct (enc_blocks (L, S) b1) as [b1' [L1 S1]] eqn:E1.
+    destruct (enc_blocks (L1, S1) b2) as [b2' [L2 S2]] eqn:E2.
+    destruct (enc_table (L2, S2) r) as [r' [L3 S3]] eqn:E3.
+    intros H; inversion H; subst. clear H. intros Hin. cbn [pops_of flat_map fst snd]. rewrite !in_app_iff.
+    destruct (IH _ _ _ _ _ k E3 Hin) as [H1|H1]; [|tauto].
+    destruct (enc_blocks_keys _ _ _ _ _ _ k E2 H1) as [H2|H2]; [|tauto].
+    destruct (enc_blocks_keys _ _ _ _ _ _ k E1 H2) as [H3|H3]; tauto.
+Qed.
+
+Definition given_list (given : option (list Z)) : list Z := match given with Some g => g | None => [] end.
+
+(* encode either encodes the whole table or raises OverflowError (a code > 255) *)
 Lemma encode_spec d given :
   exists Lf Sf,
-    encode given (mkbp d None) = Ok (mkbp (map_table (code_of Lf) d) (Some (seen_filter Sf Lf))) /\
+    encode given (mkbp d None) =
+      (if codes_fit (map_table (code_of Lf) d)
+       then Ok (mkbp (map_table (code_of Lf) d) (Some (seen_filter Sf Lf))) else Err E_Overflow) /\
     (forall p, In p (pops_of d) -> In p Sf /\ zassoc p Lf <> None) /\
-    (match given with Some g => NoDup g | None => True end -> linv Lf).
+    (match given with Some g => NoDup g | None => True end -> linv Lf) /\
+    (forall k, In k (map fst Lf) -> In k (given_list given) \/ In k (pops_of d)).
 Proof.
   unfold encode. cbn [blabels bdata].
   set (l0 := match given with None => [] | Some g => enum_dict 0 g [] end).
   destruct (enc_table (l0, []) d) as [d' [Lf Sf]] eqn:E.
+  pose proof (fun k => enc_table_keys d l0 [] d' Lf Sf k E) as HK.
   apply enc_table_spec in E. destruct E as [_ [HS [Hi [Hall ->]]]].
-  exists Lf, Sf. split; [reflexivity|]. split.
+  exists Lf, Sf. split; [reflexivity|]. split; [|split].
   - intros p Hp. split; [apply HS; right; exact Hp|apply Hall; exact Hp].
   - intros Hg. apply Hi. unfold l0. destruct given as [g|]; [|apply linv_nil].
     apply (enum_dict_inv g [] Hg); [intros ? _ []|apply linv_nil].
+  - intros k Hk. destruct (HK k Hk) as [H|H]; [|right; exact H]. left.
+    unfold l0 in H. destruct given as [g|]; [|inversion H]. cbn [given_list].
+    apply enum_dict_keys in H. destruct H as [[]|H]. exact H.
+Qed.
+
+Lemma codes_fit_map_table f d : (forall p, In p (pops_of d) -> f p <= 255) -> codes_fit (map_table f d) = true.
+Proof.
+  intros H. unfold codes_fit, map_table. apply forallb_forall. intros nsb Hin.
+  apply in_map_iff in Hin. destruct Hin as [[name [b1 b2]] [<- Hin]]. cbn [fst snd map_strands].
+  assert (K : forall b, (forall s, In s b -> In (pop s) (pops_of d)) -> fits8 (map_pop f b) = true).
+  { intros b Hb. unfold fits8, map_pop. apply forallb_forall. intros s' Hs'. apply in_map_iff in Hs'.
+    destruct Hs' as [s [<- Hs]]. cbn [pop set_pop]. apply Z.leb_le. apply H. apply Hb. exact Hs. }
+  apply andb_true_iff. split; apply K; intros s Hs; unfold pops_of; apply in_flat_map;
+    exists (name, (b1, b2)); (split; [exact Hin|]); cbn [fst snd]; apply in_or_app; [left|right]; apply in_map; exact Hs.
+Qed.
+
+(* with at most 256 distinct labels (given or present) every code fits np.uint8 *)
+Lemma codes_fit_bound d given Lf :
+  linv Lf -> (forall k, In k (map fst Lf) -> In k (given_list given) \/ In k (pops_of d)) ->
+  (length (dedup (given_list given ++ pops_of d)) <= 256)%nat ->
+  forall p, zassoc p Lf <> None -> code_of Lf p <= 255.
+Proof.
+  intros [Hk _ Hb] Hkeys Hlen p Hp. unfold code_of. destruct (zassoc p Lf) as [c|] eqn:E; [|congruence].
+  apply zassoc_In in E. specialize (Hb _ E). cbn [snd] in Hb.
+  assert (length (map fst Lf) <= length (dedup (given_list given ++ pops_of d)))%nat as Hl.
+  { apply NoDup_incl_length; [exact Hk|]. intros k Hin. apply dedup_In. apply in_or_app. apply Hkeys. exact Hin. }
+  rewrite map_length in Hl. unfold lenZ in Hb. lia.
 Qed.
 
 (* ---- recode inverts encode --------------------------------------------------- *)
@@ -265,10 +345,14 @@ Qed.
 Theorem encode_recode_id d given :
   (match given with Some g => NoDup g | None => True end) ->
   (forall nsb, In nsb d -> fst (snd nsb) <> [] /\ snd (snd nsb) <> []) ->
+  (length (dedup (given_list given ++ pops_of d)) <= 256)%nat ->
   exists st', encode given (mkbp d None) = Ok st' /\ recode st' = Ok (mkbp d None).
 Proof.
-  intros Hg Hne. destruct (encode_spec d given) as [Lf [Sf [He [Hall Hi]]]].
-  eexists. split; [exact He|]. specialize (Hi Hg). destruct Hi as [_ Hcodes _].
+  intros Hg Hne Hlen. destruct (encode_spec d given) as [Lf [Sf [He [Hall [Hi Hkeys]]]]].
+  specialize (Hi Hg).
+  rewrite codes_fit_map_table in He
+    by (intros p Hp; apply (codes_fit_bound d given Lf Hi Hkeys Hlen); apply Hall; exact Hp).
+  eexists. split; [exact He|]. destruct Hi as [_ Hcodes _].
   unfold recode. cbn [blabels bdata]. set (F := seen_filter Sf Lf).
   assert (HF : NoDup (map snd F)) by (apply NoDup_map_filter; exact Hcodes).
   assert (Hback : forall p, In p (pops_of d) -> label_of F (code_of Lf p) = p).
@@ -372,6 +456,7 @@ Theorem encoded_lookup_commutes d given st' vs req :
       rmap (map (map (pair_map (code_of labels)))) (population_array d vs req).
 Proof.
   intros He. destruct (encode_spec d given) as [Lf [Sf [He' [Hall _]]]]. rewrite He' in He.
+  destruct (codes_fit (map_table (code_of Lf) d)); [|discriminate].
   inversion He; subst st'. clear He. cbn [blabels bdata]. exists (seen_filter Sf Lf).
   assert (Hz : forall p, In p (pops_of d) -> zassoc p (seen_filter Sf Lf) = zassoc p Lf).
   { intros p Hp. unfold seen_filter. rewrite (zassoc_filter_key (fun k => existsb (Z.eqb k) Sf)).
@@ -382,6 +467,87 @@ Proof.
   { apply map_table_ext. intros p Hp. unfold code_of. rewrite (Hz p Hp). reflexivity. }
   split; [reflexivity|]. split; [intros p Hp; rewrite (Hz p Hp); apply Hall; exact Hp|].
   split; [exact Ht|]. rewrite Ht. apply population_array_map_table.
+Qed.
+
+(* an encode that fails fails with OverflowError, and only when more than 256 distinct labels
+   (given or present) would need a code *)
+Theorem encode_error_is_overflow d given k :
+  encode given (mkbp d None) = Err k ->
+  k = E_Overflow /\
+  ((match given with Some g => NoDup g | None => True end) ->
+   (256 < length (dedup (given_list given ++ pops_of d)))%nat).
+Proof.
+  intros He. destruct (encode_spec d given) as [Lf [Sf [He' [Hall [Hi Hkeys]]]]]. rewrite He' in He.
+  destruct (codes_fit (map_table (code_of Lf) d)) eqn:Ef; [discriminate|]. inversion He; subst k.
+  split; [reflexivity|]. intros Hg. specialize (Hi Hg).
+  destruct (Nat.lt_ge_cases 256 (length (dedup (given_list given ++ pops_of d)))) as [H|H]; [exact H|].
+  exfalso. rewrite codes_fit_map_table in Ef; [discriminate|].
+  intros p Hp. apply (codes_fit_bound d given Lf Hi Hkeys H). apply Hall. exact Hp.
+Qed.
+
+(* the state recode refuses: a strand without blocks (np.vectorize on a size-0 array) *)
+Theorem recode_empty_strand st labels :
+  blabels st = Some labels ->
+  (exists nsb, In nsb (bdata st) /\ (fst (snd nsb) = [] \/ snd (snd nsb) = [])) ->
+  recode st = Err E_Value.
+Proof.
+  intros Hl [nsb [Hin Hemp]]. unfold recode. rewrite Hl.
+  rewrite (mapM_err_kind _ (bdata st) E_Value); [reflexivity| |].
+  - intros a k _. unfold rec_blocks. destruct (fst (snd a)); cbn [bind]; [intros H; inversion H; reflexivity|].
+    destruct (snd (snd a)); cbn [bind]; intros H; inversion H; reflexivity.
+  - exists nsb. split; [exact Hin|]. exists E_Value. unfold rec_blocks.
+    destruct Hemp as [->| ->]; cbn [bind]; [reflexivity|]. destruct (fst (snd nsb)); reflexivity.
+Qed.
+
+(* 256 labels are encoded and decoded; the 257th raises OverflowError and leaves the first
+   strand encoded, the second untouched *)
+Definition wide_strand (n : nat) : list seg := map (fun i => mkseg (1000 + Z.of_nat i) 1 (Z.of_nat i + 1) 0) (seq 0 n).
+
+Example encode_256_labels :
+  let d := [(0, (wide_strand 256, [mkseg 1000 1 5 0]))] in
+  bind (encode None (mkbp d None)) recode = Ok (mkbp d None).
+Proof. vm_compute. reflexivity. Qed.
+
+Example encode_257_labels_overflow :
+  let d := [(0, (wide_strand 256, [mkseg 1256 1 5 0]))] in
+  encode None (mkbp d None) = Err E_Overflow /\
+  (256 < length (dedup (pops_of d)))%nat /\
+  encode_partial None d = [(0, (map (fun i => mkseg (Z.of_nat i) 1 (Z.of_nat i + 1) 0) (seq 0 256), [mkseg 1256 1 5 0]))].
+Proof. vm_compute. repeat split. apply Nat.leb_le. reflexivity. Qed.
+
+(* a label given twice is outside the encoder's domain: {pop: i} keeps its LAST index while the
+   counter starts at the number of distinct labels, so a new label can receive a code that is
+   taken - here labels 7 and 9 both get code 2 and decoding does not restore the data *)
+Example encode_repeated_given_collides :
+  let d := [(0, ([mkseg 7 1 10 0; mkseg 9 1 20 0], [mkseg 7 1 10 0]))] in
+  exists st', encode (Some [7; 8; 7]) (mkbp d None) = Ok st' /\
+              blabels st' = Some [(7, 2); (9, 2)] /\ recode st' <> Ok (mkbp d None).
+Proof. eexists. vm_compute. repeat split. discriminate. Qed.
+
+(* encoding keeps chromosomes and ends, hence the documented format; so the statement above
+   also holds for the faithful model (numpy's bisection) on such a table *)
+Lemma ends_on_map_pop f l c : map endc (on_chrom c (map_pop f l)) = map endc (on_chrom c l).
+Proof.
+  unfold on_chrom, map_pop. induction l as [|s r IH]; [reflexivity|]. cbn [map filter chrom set_pop].
+  destruct (chrom s =? c); cbn [map endc set_pop]; rewrite IH; reflexivity.
+Qed.
+
+Lemma table_asc_map_table f d : table_asc d -> table_asc (map_table f d).
+Proof.
+  intros H nsb Hin. unfold map_table in Hin. apply in_map_iff in Hin. destruct Hin as [x [<- Hx]].
+  destruct (H x Hx) as [H1 H2]. cbn [fst snd map_strands]. split; intros c; rewrite ends_on_map_pop; [apply H1|apply H2].
+Qed.
+
+Theorem encoded_lookup_commutes_np d given st' vs req :
+  table_asc d -> encode given (mkbp d None) = Ok st' ->
+  exists labels, blabels st' = Some labels /\
+    population_array_np (bdata st') vs req =
+      rmap (map (map (pair_map (code_of labels)))) (population_array_np d vs req).
+Proof.
+  intros Ha He. destruct (encoded_lookup_commutes d given st' vs req He) as [labels [Hl [_ [Hd Hp]]]].
+  exists labels. split; [exact Hl|].
+  rewrite (population_array_np_eq d vs req Ha).
+  rewrite population_array_np_eq; [exact Hp|]. rewrite Hd. apply table_asc_map_table. exact Ha.
 Qed.
 
 (* satisfiability of the hypotheses, on the labels of tests/data/simple.bp *)
@@ -403,9 +569,32 @@ Proof.
   - intros H; inversion H; subst. auto.
 Qed.
 
+(* inside the domain (at most 256 labels) a refusal is a violation *)
+Theorem holds_codec_never_refuses k e :
+  holds_codec k = true -> codec_domain k = true -> e_enc k <> Err e.
+Proof.
+  unfold holds_codec, codec_domain. intros H D. apply andb_true_iff in D. destruct D as [D0 Dn].
+  rewrite D0 in H. intros He. rewrite He in H. apply Z.ltb_lt in H. apply Z.leb_le in Dn. lia.
+Qed.
+
+(* beyond it the only alternative to a refusal is a correct round trip: codes that wrapped
+   around would not decode to the original data *)
+Theorem holds_codec_beyond_256 k :
+  holds_codec k = true -> codec_domain0 k = true ->
+  (exists e, e_enc k = Err e /\ 256 < label_count k) \/ e_rec k = Ok (e_tbl k).
+Proof.
+  unfold holds_codec. intros H D0. rewrite D0 in H. destruct (e_enc k) as [[dd labels]|e0].
+  - right. apply andb_true_iff in H. destruct H as [H _]. apply andb_true_iff in H. destruct H as [H _].
+    destruct (e_rec k) as [t|e]; cbn in H; [|discriminate]. apply table_eqb_true in H. subst. reflexivity.
+  - left. exists e0. split; [reflexivity|apply Z.ltb_lt; exact H].
+Qed.
+
 Theorem holds_codec_sound k :
   holds_codec k = true -> codec_domain k = true -> e_rec k = Ok (e_tbl k).
 Proof.
-  unfold holds_codec. intros H D. rewrite D in H. apply andb_true_iff in H. destruct H as [H _].
-  destruct (e_rec k) as [t|e]; cbn in H; [|discriminate]. apply table_eqb_true in H. subst. reflexivity.
+  unfold holds_codec, codec_domain. intros H D. apply andb_true_iff in D. destruct D as [D0 Dn].
+  rewrite D0 in H. destruct (e_enc k) as [[dd labels]|e0].
+  - apply andb_true_iff in H. destruct H as [H _]. apply andb_true_iff in H. destruct H as [H _].
+    destruct (e_rec k) as [t|e]; cbn in H; [|discriminate]. apply table_eqb_true in H. subst. reflexivity.
+  - apply Z.ltb_lt in H. apply Z.leb_le in Dn. lia.
 Qed.
